@@ -2,6 +2,7 @@ package node
 
 import (
 	"fmt"
+	"math"
 	"net/url"
 	"reflect"
 	"strings"
@@ -173,8 +174,11 @@ func toEnum(src val.EnumList, v interface{}) (val.Enum, error) {
 			return e, nil
 		}
 	} else if id, isNum := val.Conv(val.FmtUInt32, v); isNum == nil {
-		if e, found := src.ById(int(id.Value().(uint))); found {
-			return e, nil
+		// enum values are int32: a larger number names none (and must not wrap on 32-bit ints)
+		if u := id.Value().(uint); u <= math.MaxInt32 {
+			if e, found := src.ById(int(u)); found {
+				return e, nil
+			}
 		}
 	} else {
 		label, isLabel := val.Conv(val.FmtString, v)
